@@ -133,7 +133,15 @@ def run_shard(ctx):
             continue
         rng = ctx.rng("case", i)
         klass = "special" if i % 2 else "core"
-        form = special_form(rng, i) if klass == "special" else gen.gen_form(rng, common.rich_cfg(rng, max_depth=5))
+        if i % 10 == 4:
+            # valid XML names that are not ASCII words: decomposed/composed letters, prefixes declared by the namespaces setting;
+            # the path text in binds/controls must be the very name the instance element carries
+            klass = "exotic-names"
+            form = gen.gen_form(rng, common.rich_cfg(rng, max_depth=4, name_style="exotic", p_trigger=0.3, p_repeat_count=0.5, p_or_other=0.3))
+            form.settings["namespaces"] = gen.EXOTIC_NS
+            ctx.ctr("exotic_name_forms")
+        else:
+            form = special_form(rng, i) if klass == "special" else gen.gen_form(rng, common.rich_cfg(rng, max_depth=5))
         o = drive.convert_form(form)
         if not o.ok:
             ctx.ctr(f"rejected:{klass}")
